@@ -5,6 +5,7 @@
 set -u
 WT=$1; ID=$2; PROP=$3
 cd "$WT" || exit 2
+git checkout -q -- apischema 2>/dev/null
 [ -s patch.diff ] && [ -f demo.py ] || { echo "missing patch.diff/demo.py"; exit 2; }
 git checkout -q -- apischema
 /venv/bin/python demo.py >/dev/null 2>&1; BEFORE=$?
